@@ -244,6 +244,23 @@ def check(prop, tier, seed):
                 "RunProgramTest corpus) each run as the variants the property relates; every run is re-executed by the Interp.tla "
                 "machine inside TLC (one state per machine step) and the relations are evaluated by TraceRun.tla on the recorded "
                 "outcomes. A case is non-trivial when the specification decided it (did not abstain)." % profile)
+    if prop == "C07":
+        # design-level reproduction of known finding F9 (expected to FAIL) and its absence under the strict combination
+        key = "mcf9|%s" % C.spec_hash(["MCF9", "MCF9_strict", "Interp", "Ops", "Sexp", "BigInt", "Prim"])
+        cp = C.cache_path("mc", key)
+        if os.path.exists(cp):
+            f9 = json.load(open(cp))
+        else:
+            r1 = C.run_tlc("MCF9", cfg="MCF9.cfg", workers=2, timeout=900)
+            r2 = C.run_tlc("MCF9", cfg="MCF9_strict.cfg", workers=2, timeout=900)
+            if not r1.invariant_violated or r2.invariant_violated or r2.rc != 0:
+                raise C.ToolError("MCF9: the design-level reproduction of finding F9 changed (violated=%s / strict violated=%s)"
+                                  % (r1.invariant_violated, r2.invariant_violated))
+            f9 = {"states": r1.distinct + r2.distinct, "transitions": r1.generated + r2.generated}
+            json.dump(f9, open(cp, "w"))
+        out.states += f9["states"]
+        out.transitions += f9["transitions"]
+        out.extra["f9_design_level"] = "TLC violates RestrictionOnlyRemoves for R={CANONICAL_INTS} (MCF9.cfg) and proves it for R={CANONICAL_INTS,NO_UNKNOWN_OPS} (MCF9_strict.cfg)"
     if prop in MC_PROPS:
         mc_part(prop, tier, seed, out)
         out.rule += (" PLUS MCInterp: a bounded universe of programs (every operator at its arities over boundary alphabets, "
